@@ -18,6 +18,8 @@ def _mk(R, explicit, diag):
         L_aa, L_ab = sub(xp, par["L"], sa, sa), sub(xp, par["L"], sa, sb)
         L_bb = sub(xp, par["L"], sb, sb)
         S_bb = sub(xp, par["S"], sb, sb)
+        from .common import snapshot as _snap
+        sp_ = _snap(p)
         if explicit:
             cond = p.condition_on_explicit(sb, sa)                      # REAL
         else:
@@ -37,6 +39,8 @@ def _mk(R, explicit, diag):
         w.have_inverse(S_bb, schur, "Schur complement (inverse of a principal submatrix)")
         x = w.arr("x", "N", "D")
         xa, xb = x[:, sa], x[:, sb]
+        from .common import params_unchanged
+        params_unchanged(w, "frame/operand-unchanged", p, sp_, ("Sigma", "mu", "Lambda", "nu", "ln_beta", "ln_det_Sigma", "lnZ"))
         marg = p.get_marginal(sb)                                        # REAL
         lhs1 = cond.condition_on_x(xb).evaluate_ln(xa, element_wise=False)   # REAL [(R*N), N]
         n = w.size("N")
